@@ -616,6 +616,9 @@ Loop:
 			if m0 != ModeUnset {
 				return ModeUnset, errors.New("AccessMode: access N cannot be combined with any other")
 			}
+			if i+1 < len(b) {
+				return ModeUnset, errors.New("AccessMode: access N cannot be combined with any other")
+			}
 			m0 = ModeNone // N means explicitly no access, all bits cleared
 			break Loop
 		default:
